@@ -1,6 +1,7 @@
 package main
 
 import (
+	"strings"
 	"math"
 
 	"github.com/oasisprotocol/oasis-core/go/common/crypto/signature"
@@ -214,7 +215,21 @@ func (w *world) alphabet(profile string) []letter {
 				ls = append(ls, l)
 			}
 		}
-		ls = append(ls, kmLetters()...)
+		for _, l := range kmLetters() {
+			if w.opts.Focus == "churp" && !strings.Contains(l.Name, "churp") {
+				continue
+			}
+			ls = append(ls, l)
+		}
+		if w.opts.Focus == "churp" {
+			ls = ls[:0:0]
+			ls = append(ls, letter{Name: "empty-block"})
+			for _, l := range kmLetters() {
+				if strings.Contains(l.Name, "churp") {
+					ls = append(ls, l)
+				}
+			}
+		}
 	}
 	if w.opts.Runtime && profile == "halt" {
 		// the runtime's owner falls below its stake claims: the runtime must be suspended at the next epoch, not halt the chain
